@@ -8,6 +8,7 @@
 (*  text2array   BaseWindow.array_from_text_rc(msg, rows, columns)         *)
 (*  fsdiff       FSArray.diff(a, b, ignore_formatting)                     *)
 (*  ppevent      events.pp_event(name) for key names of the two tables     *)
+(*  fseq         assertFSArraysEqual[IgnoringFormatting](a, b), simple_format *)
 (***************************************************************************)
 EXTENDS ColorStr
 
@@ -90,9 +91,23 @@ JudgePpEvent(e) ==
   ELSE IF <<e.res.t, e.res.s>> # PpRef(e) THEN V("PpEvent.Name", FALSE)
   ELSE V("ok", TRUE)
 
+(* ------------------------------------------------------------------ fseq *)
+\* assertFSArraysEqual(a, b): passes exactly when the declared widths and the heights agree and every pair of rows has
+\* the same terminal string; assertFSArraysEqualIgnoringFormatting: heights agree and every pair of rows has the same text
+\* simple_format(a): the rows' terminal strings joined by newlines
+RowStr(f) == ToksChars(ImplStr(f))
+JudgeFsEq(e) ==
+  LET same == IF e.ign = 1 THEN Len(e.a) = Len(e.b) /\ \A k \in 1..Len(e.a) : Text(e.a[k]) = Text(e.b[k])
+              ELSE e.wa = e.wb /\ Len(e.a) = Len(e.b) /\ \A k \in 1..Len(e.a) : RowStr(e.a[k]) = RowStr(e.b[k])
+  IN IF same /\ e.res.k # "ok" THEN V("FsEq.EqualArraysRejected", FALSE)
+     ELSE IF ~same /\ ~(e.res.k = "exc" /\ e.res.t = "AssertionError") THEN V("FsEq.DifferentArraysAccepted", FALSE)
+     ELSE IF e.fmt # FlattenSeq([k \in 1..Len(e.a) |-> IF k = 1 THEN RowStr(e.a[k]) ELSE <<10>> \o RowStr(e.a[k])]) THEN V("FsEq.SimpleFormat", FALSE)
+     ELSE V("ok", TRUE)
+
 JudgeExtra(e) ==
   CASE e.op = "text2array" -> JudgeText2Array(e)
     [] e.op = "fsdiff" -> JudgeFsDiff(e)
     [] e.op = "ppevent" -> JudgePpEvent(e)
+    [] e.op = "fseq" -> JudgeFsEq(e)
     [] OTHER -> <<"fail", "UnknownOp", "drift">>
 =============================================================================
